@@ -119,21 +119,156 @@ func ReachableAvoiding(fn *ssa.Function, from, target ssa.Instruction, through f
 }
 
 // OnlyViaEdge reports whether target is reachable from entry only along edge e
-// (decided exactly: delete the edge, test reachability).
+// (delete the edge, test reachability; when plain reachability says "reachable", the
+// answer is refined path-sensitively: flag variables such as `stuck`, `changed`, `ok`
+// that carry a constant from an earlier branch make some CFG paths infeasible).
 func OnlyViaEdge(fn *ssa.Function, target ssa.Instruction, e Edge) bool {
-	return !Reach(fn, nil, nil, func(x Edge) bool { return !(x.B == e.B && x.K == e.K) })[target]
+	return !ReachableWithoutEdges(fn, target, []Edge{e})
 }
 
 // ReachableWithoutEdges: target reachable from entry when all given edges are deleted.
 func ReachableWithoutEdges(fn *ssa.Function, target ssa.Instruction, del []Edge) bool {
-	return Reach(fn, nil, nil, func(x Edge) bool {
+	ok := func(x Edge) bool {
 		for _, d := range del {
 			if d.B == x.B && d.K == x.K {
 				return false
 			}
 		}
 		return true
-	})[target]
+	}
+	if !Reach(fn, nil, nil, ok)[target] {
+		return false
+	}
+	return feasiblePathExists(fn, nil, target, ok)
+}
+
+// constOnPath evaluates a branch condition along a concrete block path when it is decided
+// by constants carried through phis: bool constants, negation, and nil-comparisons of values
+// that resolve to the nil constant or to a freshly built (hence non-nil) value.
+func constOnPath(cond ssa.Value, path []*ssa.BasicBlock) (val bool, known bool) {
+	neg := false
+	for {
+		if u, ok := cond.(*ssa.UnOp); ok && u.Op == token.NOT {
+			cond, neg = u.X, !neg
+			continue
+		}
+		break
+	}
+	v := ResolveOnPath(cond, path)
+	if k, ok := constBool(v); ok {
+		return k != neg, true
+	}
+	if bo, ok := v.(*ssa.BinOp); ok && (bo.Op == token.EQL || bo.Op == token.NEQ) {
+		var x ssa.Value
+		if isNilConst(bo.Y) {
+			x = bo.X
+		} else if isNilConst(bo.X) {
+			x = bo.Y
+		}
+		if x != nil {
+			rx := ResolveOnPath(x, path)
+			isNil, kn := false, false
+			switch rx.(type) {
+			case *ssa.Alloc, *ssa.MakeInterface, *ssa.MakeClosure, *ssa.MakeMap, *ssa.MakeSlice, *ssa.Function:
+				isNil, kn = false, true
+			case *ssa.Const:
+				if isNilConst(rx) {
+					isNil, kn = true, true
+				}
+			}
+			if kn {
+				res := isNil == (bo.Op == token.EQL)
+				return res != neg, true
+			}
+		}
+	}
+	if bo, ok := v.(*ssa.BinOp); ok && (bo.Op == token.EQL || bo.Op == token.NEQ) {
+		// comparison of a path-resolved value with a bool/int constant
+		for _, pair := range [][2]ssa.Value{{bo.X, bo.Y}, {bo.Y, bo.X}} {
+			c, okc := pair[1].(*ssa.Const)
+			if !okc || c.IsNil() || c.Value == nil {
+				continue
+			}
+			rx, okx := ResolveOnPath(pair[0], path).(*ssa.Const)
+			if okx && rx.Value != nil && !rx.IsNil() {
+				eq := rx.Value.ExactString() == c.Value.ExactString()
+				return (eq == (bo.Op == token.EQL)) != neg, true
+			}
+		}
+	}
+	return false, false
+}
+
+// feasiblePathExists: does an acyclic entry→target path exist that uses only allowed edges and
+// never takes a branch contradicted by constants carried along that very path?
+func feasiblePathExists(fn *ssa.Function, from ssa.Instruction, target ssa.Instruction, edgeOK func(Edge) bool) bool {
+	tb := target.Block()
+	startBlock := fn.Blocks[0]
+	if from != nil {
+		startBlock = from.Block()
+		if startBlock == tb && instrIndex(from) < instrIndex(target) {
+			return true
+		}
+	}
+	// blocks that can still reach the target (prunes the search)
+	canReach := map[*ssa.BasicBlock]bool{tb: true}
+	for changed := true; changed; {
+		changed = false
+		for _, b := range fn.Blocks {
+			if canReach[b] {
+				continue
+			}
+			for k, s := range b.Succs {
+				if canReach[s] && (edgeOK == nil || edgeOK(Edge{b, k})) {
+					canReach[b] = true
+					changed = true
+				}
+			}
+		}
+	}
+	steps := 0
+	var path []*ssa.BasicBlock
+	on := map[*ssa.BasicBlock]bool{}
+	var dfs func(b *ssa.BasicBlock) bool
+	dfs = func(b *ssa.BasicBlock) bool {
+		steps++
+		if steps > 200000 {
+			return true // give up: conservatively reachable
+		}
+		path = append(path, b)
+		on[b] = true
+		defer func() { on[b] = false; path = path[:len(path)-1] }()
+		if b == tb && !(from != nil && b == startBlock && len(path) == 1) {
+			return true
+		}
+		succs := []int{}
+		for k := range b.Succs {
+			succs = append(succs, k)
+		}
+		if ifi, ok := b.Instrs[len(b.Instrs)-1].(*ssa.If); ok && len(b.Succs) == 2 {
+			if v, known := constOnPath(ifi.Cond, path); known {
+				if v {
+					succs = []int{0}
+				} else {
+					succs = []int{1}
+				}
+			}
+		}
+		for _, k := range succs {
+			s := b.Succs[k]
+			if (on[s] && !(s == tb && s == startBlock && from != nil)) || !canReach[s] {
+				continue
+			}
+			if edgeOK != nil && !edgeOK(Edge{b, k}) {
+				continue
+			}
+			if dfs(s) {
+				return true
+			}
+		}
+		return false
+	}
+	return dfs(startBlock)
 }
 
 // ---- values ----
